@@ -16,7 +16,7 @@ ID = 'C15'
 LEVEL = 'exploration'
 RUNS = {'quick': 30000, 'thorough': 600000}
 CHUNK = 80
-PROBES = ['records_fed_in_batches', 'map_record_with_start_qualifier_in_launch', 'terminate_names_sampled_thread_inside_sample', 'very_many_images', 'lost_record', 'repeated_request_same_object', 'frame_exactly_at_load_address', 'frame_one_below_lowest', 'frame_between_adjacent_images', 'duplicate_address_announced',
+PROBES = ['consumer_edits_traces', 'image_unmapped_that_was_never_mapped', 'records_fed_in_batches', 'map_record_with_start_qualifier_in_launch', 'terminate_names_sampled_thread_inside_sample', 'very_many_images', 'lost_record', 'repeated_request_same_object', 'frame_exactly_at_load_address', 'frame_one_below_lowest', 'frame_between_adjacent_images', 'duplicate_address_announced',
           'header_count_below_data', 'header_count_above_data', 'header_count_zero', 'sample_without_header', 'sample_without_flag',
           'launch_with_nested_maps', 'shared_cache_map', 'image_announced_inside_sample_window', 'announcement_after_sample',
           'unrelated_record_in_sample', 'several_data_records', 'via_file_api', 'out_of_order_announcements']
@@ -56,6 +56,7 @@ def generate(rng, index, tier):
             im['uuid'] = rng.pick(images)['uuid']       # the same identity at another address (a shared cache mapped twice)
     nann = rng.randint(1, 2)
     threads = []
+    lone_unmaps = []
     ann_ops = [[] for _ in range(nann)]
     for im in images:
         ops = ann_ops[rng.randrange(nann)]
@@ -80,6 +81,16 @@ def generate(rng, index, tier):
                 inner.append(worlds.op_imap(rng, other['uuid'], other['addr'], shared=rng.chance(0.3)))
             ops.append({'k': 'sys', 'name': 'DBG_DYLD_TIMING_LAUNCH_EXECUTABLE', 's': [0, rng.randrange(1 << 40), 0, 0],
                         'e': [0, 0, 0, 0], 'in': inner})
+    if rng.chance(0.2):
+        # images unmapped that this capture never saw mapped (unmapping is not an announcement)
+        for _u in range(rng.randint(1, 2)):
+            ua = (base + rng.randrange(0, 64) * 0x1000 + rng.pick([0, 0x800])) & 0xffffffffffffffff
+            if ua not in addrs:
+                um = worlds.op_imap(rng, worlds.draw_uuid(rng), ua)
+                um['name'] = rng.pick(['DYLD_uuid_unmap_a', 'DYLD_uuid_unmap_a', 'DYLD_uuid_unmap_b'])
+                k_ = rng.randrange(nann)
+                ann_ops[k_].insert(rng.randrange(len(ann_ops[k_]) + 1), um)
+                lone_unmaps.append(ua)
     for i in range(nann):
         if rng.chance(0.25):
             for _t in range(rng.randint(1, 3)):
@@ -93,6 +104,8 @@ def generate(rng, index, tier):
             for a in addrs:
                 cand += [a - 1, a, a + 1, a + 0x800]
             cand += [min(addrs) - 1, 0, 1 << 47, max(addrs) + 0x100000]
+            for ua in lone_unmaps:
+                cand += [ua, ua + 1, ua + 0x10]
             rows = [[rng.pick(cand) & 0xffffffffffffffff for _ in range(4)] for _ in range(nwords_rows)]
             nwords = 4 * nwords_rows
             nframes = rng.pick([nwords, nwords, max(0, nwords - rng.randint(1, 3)), nwords + rng.randint(1, 5), 0])
@@ -105,6 +118,10 @@ def generate(rng, index, tier):
             if rng.chance(0.12):
                 # somebody (this thread or not) logs the end of a thread's life naming a sampled thread, while the sample is open
                 extra.append({'k': 'one', 'name': 'TRACE_DATA_THREAD_TERMINATE', 'q': 0, 'a': [rng.pick([500, 501, 500 + si]), 0, 0, 0]})
+            if rng.chance(0.1):
+                # a complete two-record item of the trace class logged while the sample is open (a thread name, a string)
+                extra.append({'k': 'tname', 'text': rng.text(rng.pick([33, 40, 60]), multibyte=False), 'prev': False} if rng.chance(0.5) else
+                             {'k': 'gstr', 'id': 910000 + rng.randrange(1000), 'dbgid': 0, 'text': rng.text(rng.pick([17, 30, 49]))})
             if rng.chance(0.3):
                 extra.append(worlds.op_single(rng, 'MACH_MKRUNNABLE'))
             if rng.chance(0.3):
@@ -153,7 +170,7 @@ def generate(rng, index, tier):
             faults.append({'k': 'drop', 'at': rng.randrange(max(1, total))})      # a lost record (END of a sample, a header, a map...)
     return {'threads': threads, 'schedule': sched, 'via_file': rng.chance(0.3), 't0': (rng.randrange(1, 1 << 40) << 8) | 1,
             'tsmode': worlds.draw_tsmode(rng, ties=False), 'faults': faults, 'requests': rng.pick([1, 1, 2, 3]), 'earlier_other': rng.chance(0.2),
-            'pages': [rng.randint(1, 7) for _ in range(rng.randint(1, 5))] if rng.chance(0.25) else None}
+            'pages': [rng.randint(1, 7) for _ in range(rng.randint(1, 5))] if rng.chance(0.25) else None, 'consumer_edits': rng.chance(0.15)}
 
 
 def _words_to_uuid(a):
@@ -181,6 +198,8 @@ def execute(scn):
     samples = []
     open_sample = {}
     for i, r in enumerate(stream):
+        if table.get(r['id'], '').startswith('DYLD_uuid_unmap') and not any(a_[2] == r['a'][2] for a_ in ann):
+            bump('probe:image_unmapped_that_was_never_mapped')
         if r['id'] == MAP and r['q'] in (0, 3):
             ann.append([i, i, r['a'][2], _words_to_uuid(r['a'])])
         elif r['id'] == MAP and r['q'] == 1:
@@ -242,6 +261,18 @@ def execute(scn):
         tparser = tool.tp_mod.TracesParser(table, {}, {})
         cparser = tool.cs_mod.CallstacksParser([], [])
         evs_ = worlds.kevents_of(stream)
+        if scn.get('consumer_edits'):
+            # whoever sits between the two parsers uses every trace up once the callstack parser has seen it
+            from .c20 import _consume
+            bump('fault:consumer_edits_results')
+            bump('probe:consumer_edits_traces')
+            real_fg = tparser.feed_generator
+
+            def tapped(gen):
+                for t_ in real_fg(gen):
+                    yield t_
+                    _consume(t_)
+            tparser.feed_generator = tapped
         if scn.get('pages'):
             # live capture: the records arrive in batches, each batch goes through a feed_generator() call of its own on the same
             # long-lived parser objects (a sample may begin in one batch and end in the next)
